@@ -45,6 +45,8 @@ pub struct PoolCfg {
     pub auto_gates: bool,
     /// The reference idle queue is exact (sequential histories only).
     pub exact_order: bool,
+    /// Environment answers are free choices (reachability mode).
+    pub free_faults: bool,
 }
 
 impl PoolCfg {
@@ -59,6 +61,7 @@ impl PoolCfg {
             post_create: vec![],
             auto_gates: true,
             exact_order: false,
+            free_faults: false,
         }
     }
 }
@@ -568,6 +571,11 @@ impl World {
                 problems.push((vec!["C13"], "created-changed", format!("creation instant of object {} changed", id)));
             }
         }
+        if let Some(r) = m.recycled {
+            if r < m.created {
+                problems.push((vec!["C13"], "recycled-before-created", format!("object {} reports a last-recycled instant before its creation instant", id)));
+            }
+        }
         let g = &self.gets[gi];
         if g.started_after_close {
             problems.push((vec!["C06"], "object-after-close", format!("get() started after close() returned yielded object {}", id)));
@@ -828,7 +836,8 @@ fn pick(site: Site) -> Out {
     if menu.len() <= 1 {
         return menu.first().copied().unwrap_or(Out::Ok);
     }
-    let mut costs = vec![Cost::F; menu.len()];
+    let free = w(|w| w.cfg.free_faults);
+    let mut costs = vec![if free { Cost::FREE } else { Cost::F }; menu.len()];
     costs[0] = Cost::FREE;
     let k = choose(&costs);
     trace!("  env {:?} -> {:?}", site, menu[k]);
@@ -1106,15 +1115,21 @@ pub fn op_retain(who: usize, pool: &Pool<Mgr>) {
         let exp_removed: Vec<usize> = visited.iter().filter(|v| !v.1).map(|v| v.0).collect();
         let got_removed: Vec<usize> = r.removed.iter().map(|o| o.id).collect();
         let exp_retained = visited.iter().filter(|v| v.1).count();
-        if exp_removed != got_removed {
+        let (mut e2, mut g2) = (exp_removed.clone(), got_removed.clone());
+        e2.sort();
+        g2.sort();
+        if e2 != g2 {
             w.violate(&["C09"], "retain-removed-set", format!("retain() removed {:?}, predicate rejected {:?}", got_removed, exp_removed));
         }
         if r.retained != exp_retained {
             w.violate(&["C09"], "retain-count", format!("retain() reports {} retained, predicate kept {}", r.retained, exp_retained));
         }
         if w.cfg.exact_order {
-            let idle: Vec<usize> = w.ref_idle.iter().copied().collect();
-            let seen: Vec<usize> = visited.iter().map(|v| v.0).collect();
+            // the set matters (C09), not the order in which retain walks it
+            let mut idle: Vec<usize> = w.ref_idle.iter().copied().collect();
+            let mut seen: Vec<usize> = visited.iter().map(|v| v.0).collect();
+            idle.sort();
+            seen.sort();
             if idle != seen {
                 w.violate(&["C09"], "retain-visited-set", format!("retain() offered {:?}, idle objects are {:?}", seen, idle));
             }
